@@ -153,12 +153,13 @@ def type01_frames(n: int, g1: int, g2: int, g3: int, f0: int, f1: int, f2: int, 
     return r.tellLrForFrame(fnum) == (pos[k], rest)
 
 
-def type01_frames_incremental(n: int, g1: int, g2: int, g3: int, f0: int, f1: int, f2: int, f3: int) -> bool:
+def type01_frames_incremental(n: int, g1: int, g2: int, g3: int, f0: int, f1: int, f2: int, f3: int, conv: int = 0) -> bool:
     """
     pre: 1 <= n <= 4
     pre: 1 <= g1 <= 2 and 1 <= g2 <= 2 and 1 <= g3 <= 2
     pre: 1 <= f0 <= 2 and 1 <= f1 <= 2 and 1 <= f2 <= 2 and 1 <= f3 <= 2
     pre: (n >= 2 or (g1 == 1 and f1 == 1)) and (n >= 3 or (g2 == 1 and f2 == 1)) and (n >= 4 or (g3 == 1 and f3 == 1))
+    pre: 0 <= conv <= 2
     post: _
     """
     # the index is queried while it is being built (after every record): every answer must be that of the records added so far
@@ -166,14 +167,18 @@ def type01_frames_incremental(n: int, g1: int, g2: int, g3: int, f0: int, f1: in
     g1, f1 = (mark.pick(g1, 1, 2), mark.pick(f1, 1, 2)) if n >= 2 else (1, 1)
     g2, f2 = (mark.pick(g2, 1, 2), mark.pick(f2, 1, 2)) if n >= 3 else (1, 1)
     g3, f3 = (mark.pick(g3, 1, 2), mark.pick(f3, 1, 2)) if n >= 4 else (1, 1)
+    conv = mark.pick(conv, 0, 2)
     with mark.untraced():
-        pos = [100, 100 + g1, 100 + g1 + g2, 100 + g1 + g2 + g3][:n]
+        raw = [100, 100 + g1, 100 + g1 + g2, 100 + g1 + g2 + g3][:n]
         frs = [f0, f1, f2, f3][:n]
-        r = LisRle.RLEType01(b'FEET')
+        # optional conversion of the record positions (e.g. relative to the start of the logical file): every answer is in converted positions
+        fn = [None, lambda t: t - 0x50, lambda t: 3 * t + 1][conv]
+        pos = [p if fn is None else fn(p) for p in raw]
+        r = LisRle.RLEType01(b'FEET') if fn is None else LisRle.RLEType01(b'FEET', fn)
         x = 1000
         mark.hit()
         for i in range(n):
-            r.add(pos[i], frs[i], x)
+            r.add(raw[i], frs[i], x)
             x -= frs[i] * 5
             tot = sum(frs[:i + 1])
             if r.totalFrames() != tot or r.xAxisFirst() != 1000:
